@@ -1,5 +1,8 @@
-//! C09 harness.  Group 1 (`hmap-*`): see hmap.rs.  Group 2 (`run`, `replay`): see proto.rs.
+//! C09 harness.  Group 1 (`hmap-*`): the wait table's hash map, see hmap.rs.
+//! Group 2 (`run`, `replay`): mutex / condition / join protocol on the scheduler, see proto.rs.
+//! Every random choice derives from VERIF_SEED.
 mod hmap;
+mod proto;
 
 fn main() {
     let args: Vec<String> = std::env::args().collect();
@@ -7,7 +10,21 @@ fn main() {
         Some("hmap-gen") => hmap::gen(args.get(2).and_then(|s| s.parse().ok()).unwrap_or(100)),
         Some("hmap-run") => hmap::run_file(args.get(2).map(|s| s.as_str())),
         Some("hmap-worker") => hmap::worker(),
-        Some("hmap-min") => hmap::minimise(&args[2..].join(" ")),
+        Some("hmap-min") if args.len() > 2 => hmap::minimise(&args[2..].join(" ")),
+        Some("run") if args.len() >= 4 => {
+            std::panic::set_hook(Box::new(|_| {}));
+            if std::env::var("VERIF_NO_PIN").is_err() {
+                verif_sync_shim::pin_to_current_cpu();
+            }
+            proto::run(&args[2..]);
+        }
+        Some("replay") if args.len() >= 5 => {
+            std::panic::set_hook(Box::new(|_| {}));
+            if std::env::var("VERIF_NO_PIN").is_err() {
+                verif_sync_shim::pin_to_current_cpu();
+            }
+            proto::replay(&args[2..]);
+        }
         _ => {
             eprintln!("usage: h_c09 hmap-gen <n> | hmap-run [file] | hmap-min <request line> | run <quick|thorough> <outdir> [corpus] | replay <scenario> <spur> <choices|->");
             std::process::exit(2);
